@@ -120,7 +120,8 @@ EXPECTED_ATOMS = [
 GLOBAL_PATTERNS = [r'\bstatic\s+(mut\s+)?\w+\s*:', r'lazy_static!', r'thread_local!', r'\bOnce(Lock|Cell)\b', r'\bLazy(Lock|Cell)?\s*<',
                    r'\bAtomic[A-Z]\w*', r'\b(Mutex|RwLock)\s*<', r'static\s+ref\b', r'\bunsafe\b']
 AMBIENT_PATTERNS = [r'SystemTime', r'Instant::', r'\brand::', r'thread_rng', r'env::vars?\b', r'env::args', r'process::id', r'env::current_dir',
-                    r'RandomState', r'getrandom', r'DefaultHasher', r'thread::spawn', r'available_parallelism']
+                    r'RandomState', r'getrandom', r'DefaultHasher', r'thread::spawn', r'available_parallelism',
+                    r'config_dir\s*\(', r'home_dir\s*\(', r'\bdirs::', r'get_standard_includes\s*\(', r'temp_dir\s*\(', r'hostname', r'\bgetenv\b']
 ITER_METHODS = r'\.(iter|keys|values|into_iter|drain|iter_mut|values_mut|retain|into_keys|into_values)\('
 
 def rust_sources():
@@ -154,9 +155,14 @@ def scan_globals():
             if not t: continue
             if any(re.search(p, t) for p in GLOBAL_PATTERNS): glob.append((rel, t))
             if any(re.search(p, t) for p in AMBIENT_PATTERNS): amb.append((rel, t))
-            for n in names:
-                if re.search(r'\b%s\b[^;]*%s' % (re.escape(n), ITER_METHODS), t) or re.search(r'\bfor\b.*\bin\b[^{]*\b%s\b' % re.escape(n), t):
-                    iters.append((rel, t)); break
+        # iteration: on the text with all white space collapsed, so that a method chain broken over lines is one piece;
+        # within one statement (no ; { } in between)
+        flat = ' '.join(text.split())
+        for n in sorted(names):
+            for m in re.finditer(r'\b%s\b[^;{}]{0,120}?%s' % (re.escape(n), ITER_METHODS), flat):
+                iters.append((rel, flat[max(0, m.start() - 20):m.end() + 20]))
+            for m in re.finditer(r'\bfor\b[^;{}]{0,80}?\bin\b[^;{}]{0,80}?\b%s\b' % re.escape(n), flat):
+                iters.append((rel, flat[max(0, m.start() - 5):m.end() + 20]))
     return glob, amb, iters
 
 def lean_str(s):
@@ -271,6 +277,7 @@ def main():
     out.append('/-- MAX_SYMBOL_DEPTH (expr.rs), MAX_MACRO_DEPTH (builder/pass0.rs), MAX_INCLUDE_DEPTH (parser.rs) -/')
     out.append(f'def maxSymbolDepth : Nat := {const("src/expr.rs", "MAX_SYMBOL_DEPTH")}')
     out.append(f'def maxMacroDepth : Nat := {const("src/builder/pass0.rs", "MAX_MACRO_DEPTH")}')
+    out.append(f'def maxMacroLine : Nat := {const("src/builder/pass0.rs", "MAX_MACRO_LINE")}')
     out.append(f'def maxIncludeDepth : Nat := {const("src/parser.rs", "MAX_INCLUDE_DEPTH")}')
     out.append('end Avra.Gen')
     write_if_changed(os.path.join(GEN, 'Tables.lean'), '\n'.join(out) + '\n')
